@@ -27,22 +27,54 @@ def load():
     return json.load(open(PATH))["findings"]
 
 
-def process(prop, failures):
-    """returns (KNOWN-FINDING lines, remaining failures, info)"""
+def process(prop, failures, problems=()):
+    """returns (KNOWN-FINDING lines, remaining failures, remaining problems, info)
+
+    `failures` are concrete failing inputs found by the real-code oracles, `problems` are broken
+    correspondences / obligations.  Both are offered to the classifier of every listed finding;
+    what a classifier accepts is reported as KNOWN-FINDING instead of VIOLATION."""
     lines, info = [], []
-    entries = [e for e in load() if e["property"] == prop]
+    entries = [e for e in load() if prop in e["properties"]]
     remaining = list(failures)
+    rem_problems = list(problems)
     for e in entries:
         fid = e["id"]
         if e["status"] != "known":
             info.append(dict(id=fid, status=e["status"]))
             continue      # a `fixed` entry suppresses nothing
-        matched = [f for f in remaining if CLASSIFIERS.get(fid, lambda f: False)(f)]
-        remaining = [f for f in remaining if f not in matched]
+        cl = CLASSIFIERS.get(fid, lambda f: False)
+        matched = [f for f in remaining if cl(f)] + [f for f in rem_problems if cl(f)]
+        remaining = [f for f in remaining if not cl(f)]
+        rem_problems = [f for f in rem_problems if not cl(f)]
         still = None
         if fid in WITNESSES:
-            still = WITNESSES[fid]()
+            try:
+                still = WITNESSES[fid]()
+            except Exception as ex:      # a witness that cannot run any more is not "still failing"
+                still = None
+                info.append(dict(id=fid, witness_error=repr(ex)))
         if still or matched:
             lines.append("KNOWN-FINDING: property=%s %s: %s" % (prop, fid, e["what"]))
         info.append(dict(id=fid, status="known", witness_still_fails=bool(still), matched_failures=len(matched)))
-    return lines, remaining, info
+    return lines, remaining, rem_problems, info
+
+
+# ---------------------------------------------------------------------------------------
+# F10  WingboxFuelVolDelta halves its `fuelburn` input view in place (symmetric surfaces)
+# ---------------------------------------------------------------------------------------
+@classifier("F10")
+def _f10_class(f):
+    if f.get("component") == "FuelVolDelta" and "jacobian" in f.get("kind", "") and tuple(f.get("size", ()))[-1:] == (True,):
+        return True
+    return f.get("finding") == "F10"
+
+
+@witness("F10")
+def _f10_witness():
+    import numpy as np, openmdao.api as om
+    from .core import comp_problem, comp_jacobian
+    from openaerostruct.structures.wingbox_fuel_vol_delta import WingboxFuelVolDelta
+    s = {"symmetry": True, "mesh": np.zeros((2, 3, 3)), "Wf_reserve": 1000.0, "fuel_density": 800.0}
+    p = comp_problem(WingboxFuelVolDelta(surface=s), dict(fuelburn=np.array([2000.0]), fuel_vols=np.array([1.0, 2.0])))
+    J = comp_jacobian(p, ["fuel_vol_delta"], ["fuel_vols"])[("fuel_vol_delta", "fuel_vols")]
+    return bool(np.max(np.abs(J - 1.0)) > 1e-6) or float(p.model.c._inputs["fuelburn"][0]) != 2000.0
